@@ -357,6 +357,39 @@ Section Reach.
       - rewrite firstn_all2 by (unfold n in Hr; lia). replace k with (length h) by (unfold n in *; lia). symmetry. apply firstn_all. }
     rewrite Ef, R. fold (countdown n k). rewrite <- (countdown_firstn k (length h) n Hk), <- !firstn_map. f_equal. apply true_entries.
   Qed.
+
+  (* MostRecent(r) with AllowMissingValues *)
+  Theorem history_recent_sound_dir_am E p rs r : hp_ok2 p -> h <> [] -> d_epoch st <= E -> E < 2 ^ 64 ->
+    key_history_verify cfg vrf_check pk (root_hash cfg true (d_tree st)) E l p (HMostRecent r) true = Some rs ->
+    Forall2 amrel rs (map entry_of_state (firstn (N.to_nat r) h)) \/ Bad.
+  Proof.
+    intros Hp Hne HE1 HE2 H.
+    assert (Hn1 : 1 <= n) by (unfold n; destruct h; [congruence | cbn [length]; lia]).
+    assert (HnE : n <= E).
+    { destruct (state_of_range n Hn1 ltac:(lia)) as (A & _ & D). pose proof (di_ver_le vrf_label st I _ A). pose proof (di_epochs vrf_label st I _ A). lia. }
+    destruct (history_recent_sound_am cfg Bad B vrf_check pk ck l (d_tree st) t_ok t_wf F F_full vrf_unique n val_of ep_of vals_len eps_u64
+                tree_fresh nonce_ok tree_has_fresh tree_stale_epoch stale_D32 tree_epochs_u64 E p rs r Hp Hn1 HnE HE2 H) as [[R Hlen]|]; [|now right].
+    left. set (k := length rs) in *.
+    assert (Hk : (k <= length h)%nat) by (unfold n in Hlen; lia).
+    assert (Ef : firstn (N.to_nat r) h = firstn k h).
+    { destruct (N.le_gt_cases r n) as [Hr|Hr].
+      - replace (N.to_nat r) with k by (unfold n in *; lia). reflexivity.
+      - rewrite firstn_all2 by (unfold n in Hr; lia). replace k with (length h) by (unfold n in *; lia). symmetry. apply firstn_all. }
+    rewrite Ef. fold (countdown n k) in R. rewrite <- (countdown_firstn k (length h) n Hk), <- !firstn_map in R.
+    rewrite true_entries in R. rewrite <- firstn_map. exact R.
+  Qed.
+
+  (* C05 at the directory level: the leaf of a stored state cannot be shown absent *)
+  Theorem stored_version_not_deniable s nl p : In s (d_states st) ->
+    vrf_label (vr_user s) true (vr_version s) = Some nl -> np_label p = nl -> nmp_ok p ->
+    verify_nonmembership cfg (root_hash cfg true (d_tree st)) p = true -> Bad.
+  Proof.
+    intros Hs Hl Hp Hok Hv.
+    destruct (d2_leaf cfg ck vrf_label st I2 s Hs) as (y & Hy & Hin). unfold fresh_leaf in Hy. rewrite Hl in Hy. injection Hy as <-.
+    destruct (vrf_good _ _ _ _ Hl) as (W & _ & _).
+    destruct (nonmem_sound_b cfg Bad B (d_tree st) p t_ok t_wf Hok ltac:(rewrite Hp; exact W) Hv) as [Hn|]; [|assumption].
+    exfalso. apply Hn. rewrite Hp. apply in_map_iff. eexists. split; [|exact Hin]. reflexivity.
+  Qed.
 End Reach.
 
 (* ------------------------------------------------------------------ every reachable state *)
@@ -446,5 +479,22 @@ Section Reachable.
   Proof.
     apply (history_recent_sound_dir cfg Bad B ck vrf_label vrf_good vrf_inj vrf_check pk l F F_full F_ext F_inj vrf_unique nonce_len stale_D32
              st reach_inv3 reach_forms values_len epoch_u64).
+  Qed.
+
+  Theorem history_recent_sound_reachable_am E p rs r : hp_ok2 p ->
+    user_history (d_states st) l (d_epoch st) <> [] -> d_epoch st <= E -> E < 2 ^ 64 ->
+    key_history_verify cfg vrf_check pk (snd (epoch_hash cfg st)) E l p (HMostRecent r) true = Some rs ->
+    Forall2 amrel rs (map entry_of_state (firstn (N.to_nat r) (user_history (d_states st) l (d_epoch st)))) \/ Bad.
+  Proof.
+    apply (history_recent_sound_dir_am cfg Bad B ck vrf_label vrf_good vrf_inj vrf_check pk l F F_full F_ext F_inj vrf_unique nonce_len stale_D32
+             st reach_inv3 reach_forms values_len epoch_u64).
+  Qed.
+
+
+  Theorem stored_version_not_deniable_reachable s nl p : In s (d_states st) ->
+    vrf_label (vr_user s) true (vr_version s) = Some nl -> np_label p = nl -> nmp_ok p ->
+    verify_nonmembership cfg (snd (epoch_hash cfg st)) p = true -> Bad.
+  Proof.
+    apply (stored_version_not_deniable cfg Bad B ck vrf_label vrf_good stale_D32 st reach_inv3 reach_forms).
   Qed.
 End Reachable.
